@@ -5,7 +5,7 @@
      T <id> <token words>                                 -> "<id>\tok\t<wf 0|1>\t<sexp>" | "<id>\terr" | "<id>\tfuel"
    Token words (blank separated): punctuators as written, K:<keyword>, I:<identifier>, N:<decimal>,
    S:"<escaped>", B:true|false, NULL, O:<anything else>.
-   Strings are carried in their wire-escaped form (an injective encoding; the model treats them as opaque). *)
+   Strings are unescaped to their cooked bytes (UTF-8) on input and re-escaped on output. *)
 open C19_model
 
 let cstr (s : Stdlib.String.t) : C19_model.string =
@@ -27,6 +27,60 @@ let ostr (s : C19_model.string) : Stdlib.String.t =
         go r
   in
   go s;
+  Buffer.contents b
+
+(* the harness wire escape (backslash escapes and uXXXX; code points above 127 become UTF-8 bytes) *)
+let unescape_wire (s : Stdlib.String.t) : Stdlib.String.t =
+  let b = Buffer.create (Stdlib.String.length s) in
+  let n = Stdlib.String.length s in
+  let i = ref 0 in
+  while !i < n do
+    if s.[!i] = '\\' && !i + 1 < n then begin
+      (match s.[!i + 1] with
+      | 'n' -> Buffer.add_char b '\n'; i := !i + 2
+      | 'r' -> Buffer.add_char b '\r'; i := !i + 2
+      | 't' -> Buffer.add_char b '\t'; i := !i + 2
+      | '"' -> Buffer.add_char b '"'; i := !i + 2
+      | '\\' -> Buffer.add_char b '\\'; i := !i + 2
+      | 'u' when !i + 5 < n ->
+          let cp = int_of_string ("0x" ^ Stdlib.String.sub s (!i + 2) 4) in
+          if cp < 0x80 then Buffer.add_char b (Char.chr cp)
+          else if cp < 0x800 then (Buffer.add_char b (Char.chr (0xC0 lor (cp lsr 6))); Buffer.add_char b (Char.chr (0x80 lor (cp land 0x3F))))
+          else (Buffer.add_char b (Char.chr (0xE0 lor (cp lsr 12))); Buffer.add_char b (Char.chr (0x80 lor ((cp lsr 6) land 0x3F)));
+                Buffer.add_char b (Char.chr (0x80 lor (cp land 0x3F))));
+          i := !i + 6
+      | c -> Buffer.add_char b c; i := !i + 2)
+    end else begin Buffer.add_char b s.[!i]; incr i end
+  done;
+  Buffer.contents b
+
+
+(* cooked bytes (UTF-8) -> the wire escape used in S-expressions and token words *)
+let escape_wire (s : Stdlib.String.t) : Stdlib.String.t =
+  let b = Buffer.create (Stdlib.String.length s + 8) in
+  let n = Stdlib.String.length s in
+  let i = ref 0 in
+  let emit cp =
+    if cp = 0x22 then Buffer.add_string b "\\\""
+    else if cp = 0x5c then Buffer.add_string b "\\\\"
+    else if cp < 0x21 || cp > 0x7e then begin
+      if cp > 0xFFFF then begin
+        let c = cp - 0x10000 in
+        Buffer.add_string b (Printf.sprintf "\\u%04x\\u%04x" (0xD800 + (c lsr 10)) (0xDC00 + (c land 0x3FF)))
+      end else Buffer.add_string b (Printf.sprintf "\\u%04x" cp)
+    end else Buffer.add_char b (Char.chr cp)
+  in
+  while !i < n do
+    let c = Char.code s.[!i] in
+    if c < 0x80 then (emit c; incr i)
+    else if c land 0xE0 = 0xC0 && !i + 1 < n then (emit (((c land 0x1F) lsl 6) lor (Char.code s.[!i + 1] land 0x3F)); i := !i + 2)
+    else if c land 0xF0 = 0xE0 && !i + 2 < n then
+      (emit (((c land 0x0F) lsl 12) lor ((Char.code s.[!i + 1] land 0x3F) lsl 6) lor (Char.code s.[!i + 2] land 0x3F)); i := !i + 3)
+    else if c land 0xF8 = 0xF0 && !i + 3 < n then
+      (emit (((c land 0x07) lsl 18) lor ((Char.code s.[!i + 1] land 0x3F) lsl 12) lor ((Char.code s.[!i + 2] land 0x3F) lsl 6)
+             lor (Char.code s.[!i + 3] land 0x3F)); i := !i + 4)
+    else (emit c; incr i)
+  done;
   Buffer.contents b
 
 let rec pos_of_int (z : int) : positive =
@@ -94,7 +148,7 @@ let unop_names =
 let rassoc x l = fst (List.find (fun (_, v) -> v = x) l)
 
 let d_bool = function A "true" -> true | A "false" -> false | _ -> raise (Bad "bool")
-let d_str = function Q s -> cstr s | _ -> raise (Bad "string")
+let d_str = function Q s -> cstr (unescape_wire s) | _ -> raise (Bad "string")
 let d_opt f = function A "None" -> None | L [ A "Some"; x ] -> Some (f x) | _ -> raise (Bad "option")
 let d_list f = function B l -> List.map f l | _ -> raise (Bad "list")
 let d_binop = function A s -> (try List.assoc s binop_names with Not_found -> raise (Bad ("binop " ^ s))) | _ -> raise (Bad "binop")
@@ -183,7 +237,7 @@ and d_stmt (x : sx) : stmt =
   | _ -> raise (Bad "stmt")
 
 (* ---------------------------------------------------------------- printing S-expressions *)
-let q s = "\"" ^ ostr s ^ "\""
+let q s = "\"" ^ escape_wire (ostr s) ^ "\""
 let e_opt f = function None -> "None" | Some x -> "(Some " ^ f x ^ ")"
 let e_list f l = "[" ^ Stdlib.String.concat " " (List.map f l) ^ "]"
 let e_bool b = if b then "true" else "false"
@@ -287,7 +341,7 @@ let word_of_token (t : token) : Stdlib.String.t =
   | TK k -> "K:" ^ rassoc k kw_words
   | TId s -> "I:" ^ ostr s
   | TNum n -> "N:" ^ string_of_n n
-  | TStr s -> "S:\"" ^ ostr s ^ "\""
+  | TStr s -> "S:\"" ^ escape_wire (ostr s) ^ "\""
   | TBool b -> "B:" ^ e_bool b
   | TNull -> "NULL"
   | TOther s -> "O:" ^ ostr s
@@ -299,7 +353,7 @@ let token_of_word (w : Stdlib.String.t) : token =
   if starts w "K:" then (try TK (List.assoc (drop w 2) kw_words) with Not_found -> TOther (cstr w))
   else if starts w "I:" then TId (cstr (drop w 2))
   else if starts w "N:" then (try TNum (n_of_string (drop w 2)) with _ -> TOther (cstr w))
-  else if starts w "S:\"" && Stdlib.String.length w >= 4 then TStr (cstr (Stdlib.String.sub w 3 (Stdlib.String.length w - 4)))
+  else if starts w "S:\"" && Stdlib.String.length w >= 4 then TStr (cstr (unescape_wire (Stdlib.String.sub w 3 (Stdlib.String.length w - 4))))
   else if w = "B:true" then TBool true
   else if w = "B:false" then TBool false
   else if w = "NULL" then TNull
@@ -317,6 +371,47 @@ let token_of_word (w : Stdlib.String.t) : token =
               | Some o -> TP (PAssignOp o)
               | None -> TOther (cstr w)
             else TOther (cstr w))
+
+(* ---------------------------------------------------------------- text level (deepening round) *)
+let text_of_string (s : Stdlib.String.t) : ascii list =
+  let r = ref [] in
+  for i = Stdlib.String.length s - 1 downto 0 do
+    let c = Char.code s.[i] in
+    let b k = (c lsr k) land 1 = 1 in
+    r := Ascii (b 0, b 1, b 2, b 3, b 4, b 5, b 6, b 7) :: !r
+  done;
+  !r
+
+let char_of_ascii (Ascii (b0, b1, b2, b3, b4, b5, b6, b7)) =
+  let v x k = if x then 1 lsl k else 0 in
+  Char.chr (v b0 0 + v b1 1 + v b2 2 + v b3 3 + v b4 4 + v b5 5 + v b6 6 + v b7 7)
+
+let string_of_text (t : ascii list) =
+  let b = Buffer.create 64 in
+  List.iter (fun a -> Buffer.add_char b (char_of_ascii a)) t;
+  Buffer.contents b
+
+(* is `txt` a layout of `toks`: the token texts in order, separated by white space only, with white space wherever
+   needs_sep demands it (the hypothesis of theorem lex_layout, checked on boa's real output) *)
+let check_layout (txt : ascii list) (toks : token list) : Stdlib.String.t =
+  let rec skip t had = match t with c :: r when is_ws c -> skip r true | _ -> (t, had) in
+  let rec strip p t = match (p, t) with
+    | [], _ -> Some t
+    | a :: p', b :: t' when a = b -> strip p' t'
+    | _ -> None in
+  let rec go prev t toks =
+    let t, had = skip t false in
+    match toks with
+    | [] -> if t = [] then "ok" else "trailing"
+    | k :: rest -> (
+        match strip (tok_text k) t with
+        | None -> "mismatch:" ^ word_of_token k
+        | Some t' ->
+            (match prev with
+             | Some p when (not had) && needs_sep p k -> "glue:" ^ word_of_token p ^ "~" ^ word_of_token k
+             | _ -> go (Some k) t' rest))
+  in
+  go None txt toks
 
 let split_words s = List.filter (fun x -> x <> "") (Stdlib.String.split_on_char ' ' s)
 
@@ -348,6 +443,34 @@ let () =
                 in
                 Printf.printf "%s\t%d\t%s\t%s\n" id (if wf then 1 else 0)
                   (Stdlib.String.concat " " (List.map word_of_token toks)) rt)
+        | 'X' -> (
+            let sx, wire =
+              match Stdlib.String.index_opt payload '\t' with
+              | Some k -> (Stdlib.String.sub payload 0 k, Stdlib.String.sub payload (k + 1) (Stdlib.String.length payload - k - 1))
+              | None -> (payload, "")
+            in
+            match (try Stdlib.Ok (d_list d_stmt (parse_sx sx)) with Bad m -> Stdlib.Error m | Failure m -> Stdlib.Error m | Invalid_argument m -> Stdlib.Error m) with
+            | Stdlib.Error m -> Printf.printf "%s\tbad\t%s\n" id m
+            | Stdlib.Ok prog ->
+                let toks = print_tokens prog in
+                let txt = text_of_string (unescape_wire wire) in
+                let pr = printable_progb prog in
+                let lexboa = match lex txt with Some l -> if l = toks then "eq" else "diff" | None -> "none" in
+                let ptext = match parse_text txt with Some a -> if a = prog then "eq" else "diff" | None -> "none" in
+                let lay = check_layout txt toks in
+                let rtxt = render toks in
+                let self = (match lex rtxt with Some l -> l = toks | None -> false) && (match parse_text rtxt with Some a -> a = prog | None -> false) in
+                Printf.printf "%s\t%d\t%s\t%s\t%s\t%s\t%s\n" id (if pr then 1 else 0) lexboa ptext lay (if self then "ok" else "bad")
+                  (Stdlib.String.escaped (string_of_text rtxt)))
+        | 'L' -> (
+            let txt = text_of_string (unescape_wire payload) in
+            match lex txt with
+            | Some l -> Printf.printf "%s\tok\t%s\n" id (Stdlib.String.concat " " (List.map word_of_token l))
+            | None -> Printf.printf "%s\tnone\n" id)
+        | 'R' -> (
+            match (try Stdlib.Ok (d_list d_stmt (parse_sx payload)) with Bad m -> Stdlib.Error m | Failure m -> Stdlib.Error m | Invalid_argument m -> Stdlib.Error m) with
+            | Stdlib.Error m -> Printf.printf "%s\tbad\t%s\n" id m
+            | Stdlib.Ok prog -> Printf.printf "%s\tok\t%s\n" id (escape_wire (string_of_text (render (print_tokens prog)))))
         | 'T' -> (
             let toks = List.map token_of_word (split_words payload) in
             match parse_script (fuel_for toks) toks with
